@@ -2,8 +2,216 @@ import Mathlib.Tactic.Ring
 import Mathlib.Tactic.Linarith
 import Mathlib.Tactic.FieldSimp
 import Mathlib.Tactic.Push
+import Mathlib.Tactic.LinearCombination
 import DFV.Model.C19
 import DFV.Lemmas.Tab
+import DFV.Lemmas.RatFloor
+/-! helper lemmas for C19: vector algebra under orthogonal matrices, orientation, triangles -/
 namespace DFV.C19
 open DFV
+
+/-! ## vectors -/
+
+@[ext] theorem V3.ext' {a b : V3} (hx : a.x = b.x) (hy : a.y = b.y) (hz : a.z = b.z) : a = b := by
+  cases a; cases b; simp_all
+
+@[simp] theorem V3.ofList_toList (v : V3) : V3.ofList v.toList = v := by
+  cases v; simp [V3.ofList, V3.toList]
+
+theorem V3.toList_inj {a b : V3} (h : a.toList = b.toList) : a = b := by
+  cases a; cases b; simp [V3.toList] at h; simp [h]
+
+theorem mulVec_zero (q : M3) : q.mulVec V3.zero = V3.zero := by
+  simp [M3.mulVec, V3.zero]
+
+theorem mulVec_sdiv (q : M3) (v : V3) (s : Rat) : q.mulVec (v.sdiv s) = (q.mulVec v).sdiv s := by
+  apply V3.ext' <;> simp only [M3.mulVec, V3.sdiv] <;> ring
+
+theorem mulVec_neg (q : M3) (v : V3) : q.mulVec v.neg = (q.mulVec v).neg := by
+  apply V3.ext' <;> simp only [M3.mulVec, V3.neg] <;> ring
+
+/-- `Qa · Qb = a · b` for `QᵀQ = 1` -/
+theorem dot_mulVec (q : M3) (h : q.IsOrth) (a b : V3) : V3.dot (q.mulVec a) (q.mulVec b) = V3.dot a b := by
+  obtain ⟨h1, h2, h3, h4, h5, h6⟩ := h
+  simp only [V3.dot, M3.mulVec]
+  linear_combination (a.x * b.x) * h1 + (a.y * b.y) * h2 + (a.z * b.z) * h3 + (a.x * b.y + a.y * b.x) * h4
+    + (a.x * b.z + a.z * b.x) * h5 + (a.y * b.z + a.z * b.y) * h6
+
+/-- the triple product picks up the determinant -/
+theorem triple_mulVec (q : M3) (a b c : V3) :
+    V3.triple (q.mulVec a) (q.mulVec b) (q.mulVec c) = q.det * V3.triple a b c := by
+  simp only [V3.triple, V3.dot, V3.cross, M3.mulVec, M3.det]
+  ring
+
+/-- cofactors of a proper rotation are its entries (`adj Q = Qᵀ`) -/
+theorem cofactors (q : M3) (h : q.IsRot) :
+    q.a22 * q.a33 - q.a23 * q.a32 = q.a11 ∧ q.a23 * q.a31 - q.a21 * q.a33 = q.a12 ∧
+    q.a21 * q.a32 - q.a22 * q.a31 = q.a13 ∧ q.a13 * q.a32 - q.a12 * q.a33 = q.a21 ∧
+    q.a11 * q.a33 - q.a13 * q.a31 = q.a22 ∧ q.a12 * q.a31 - q.a11 * q.a32 = q.a23 ∧
+    q.a12 * q.a23 - q.a13 * q.a22 = q.a31 ∧ q.a13 * q.a21 - q.a11 * q.a23 = q.a32 ∧
+    q.a11 * q.a22 - q.a12 * q.a21 = q.a33 := by
+  obtain ⟨⟨h1, h2, h3, h4, h5, h6⟩, hd⟩ := h
+  simp only [M3.det] at hd
+  refine ⟨?_, ?_, ?_, ?_, ?_, ?_, ?_, ?_, ?_⟩
+  · linear_combination (-(q.a22 * q.a33 - q.a23 * q.a32)) * h1 + (-(q.a23 * q.a31 - q.a21 * q.a33)) * h4
+      + (-(q.a21 * q.a32 - q.a22 * q.a31)) * h5 + q.a11 * hd
+  · linear_combination (-(q.a22 * q.a33 - q.a23 * q.a32)) * h4 + (-(q.a23 * q.a31 - q.a21 * q.a33)) * h2
+      + (-(q.a21 * q.a32 - q.a22 * q.a31)) * h6 + q.a12 * hd
+  · linear_combination (-(q.a22 * q.a33 - q.a23 * q.a32)) * h5 + (-(q.a23 * q.a31 - q.a21 * q.a33)) * h6
+      + (-(q.a21 * q.a32 - q.a22 * q.a31)) * h3 + q.a13 * hd
+  · linear_combination (-(q.a13 * q.a32 - q.a12 * q.a33)) * h1 + (-(q.a11 * q.a33 - q.a13 * q.a31)) * h4
+      + (-(q.a12 * q.a31 - q.a11 * q.a32)) * h5 + q.a21 * hd
+  · linear_combination (-(q.a13 * q.a32 - q.a12 * q.a33)) * h4 + (-(q.a11 * q.a33 - q.a13 * q.a31)) * h2
+      + (-(q.a12 * q.a31 - q.a11 * q.a32)) * h6 + q.a22 * hd
+  · linear_combination (-(q.a13 * q.a32 - q.a12 * q.a33)) * h5 + (-(q.a11 * q.a33 - q.a13 * q.a31)) * h6
+      + (-(q.a12 * q.a31 - q.a11 * q.a32)) * h3 + q.a23 * hd
+  · linear_combination (-(q.a12 * q.a23 - q.a13 * q.a22)) * h1 + (-(q.a13 * q.a21 - q.a11 * q.a23)) * h4
+      + (-(q.a11 * q.a22 - q.a12 * q.a21)) * h5 + q.a31 * hd
+  · linear_combination (-(q.a12 * q.a23 - q.a13 * q.a22)) * h4 + (-(q.a13 * q.a21 - q.a11 * q.a23)) * h2
+      + (-(q.a11 * q.a22 - q.a12 * q.a21)) * h6 + q.a32 * hd
+  · linear_combination (-(q.a12 * q.a23 - q.a13 * q.a22)) * h5 + (-(q.a13 * q.a21 - q.a11 * q.a23)) * h6
+      + (-(q.a11 * q.a22 - q.a12 * q.a21)) * h3 + q.a33 * hd
+
+/-- `Qa × Qb = Q(a × b)` for a proper rotation -/
+theorem cross_mulVec (q : M3) (h : q.IsRot) (a b : V3) :
+    V3.cross (q.mulVec a) (q.mulVec b) = q.mulVec (V3.cross a b) := by
+  obtain ⟨c11, c12, c13, c21, c22, c23, c31, c32, c33⟩ := cofactors q h
+  apply V3.ext' <;> simp only [V3.cross, M3.mulVec]
+  · linear_combination (a.y * b.z - a.z * b.y) * c11 + (a.z * b.x - a.x * b.z) * c12 + (a.x * b.y - a.y * b.x) * c13
+  · linear_combination (a.y * b.z - a.z * b.y) * c21 + (a.z * b.x - a.x * b.z) * c22 + (a.x * b.y - a.y * b.x) * c23
+  · linear_combination (a.y * b.z - a.z * b.y) * c31 + (a.x * b.y - a.y * b.x) * c33 + (a.z * b.x - a.x * b.z) * c32
+
+theorem normSq_mulVec (q : M3) (h : q.IsOrth) (v : V3) : (q.mulVec v).normSq = v.normSq :=
+  dot_mulVec q h v v
+
+theorem normSq_neg (v : V3) : v.neg.normSq = v.normSq := by
+  simp only [V3.normSq, V3.dot, V3.neg]; ring
+
+theorem normSq_smul (s : Rat) (v : V3) : (v.smul s).normSq = s * s * v.normSq := by
+  simp only [V3.normSq, V3.dot, V3.smul]; ring
+
+/-! ## orientation of one cell -/
+
+theorem orient_mulVec (sq : Rat → Rat) (q : M3) (h : q.IsOrth) (v : V3) :
+    orient sq (q.mulVec v) = q.mulVec (orient sq v) := by
+  unfold orient
+  rw [normSq_mulVec q h]
+  split
+  · exact (mulVec_zero q).symm
+  · exact (mulVec_sdiv q v _).symm
+
+theorem orient_neg (sq : Rat → Rat) (v : V3) : orient sq v.neg = (orient sq v).neg := by
+  unfold orient
+  rw [normSq_neg]
+  split
+  · simp [V3.neg, V3.zero]
+  · apply V3.ext' <;> simp only [V3.neg, V3.sdiv] <;> ring
+
+/-- rescaling a vector by `s > 0` does not change its orientation, provided the square root
+is positively homogeneous on the value at hand and both lengths are on the same side of
+the zero-norm threshold -/
+theorem orient_smul (sq : Rat → Rat) (s : Rat) (v : V3) (hs : s ≠ 0)
+    (hsq : sq (s * s * v.normSq) = s * sq v.normSq)
+    (hz : isZeroNorm (s * sq v.normSq) = isZeroNorm (sq v.normSq)) :
+    orient sq (v.smul s) = orient sq v := by
+  unfold orient
+  rw [normSq_smul, hsq, hz]
+  split
+  · rfl
+  · apply V3.ext' <;> simp only [V3.smul, V3.sdiv] <;> rw [mul_div_mul_left _ _ hs]
+
+/-- the orientation of a vector with a non-negligible norm is a unit vector (for a square
+root that squares back on the value at hand) -/
+theorem orient_unit (sq : Rat → Rat) (v : V3) (hsq : sq v.normSq * sq v.normSq = v.normSq)
+    (hz : isZeroNorm (sq v.normSq) = false) : (orient sq v).normSq = 1 := by
+  unfold orient
+  rw [hz]
+  simp only [Bool.false_eq_true, if_false]
+  have hne : sq v.normSq ≠ 0 := by
+    intro h0
+    simp [isZeroNorm, h0, absR] at hz
+  have hnn : sq v.normSq * sq v.normSq ≠ 0 := mul_ne_zero hne hne
+  have e : (v.sdiv (sq v.normSq)).normSq = v.normSq / (sq v.normSq * sq v.normSq) := by
+    simp only [V3.normSq, V3.dot, V3.sdiv]
+    field_simp
+  rw [e, hsq]
+  rw [hsq] at hnn
+  exact div_self hnn
+
+/-! ## field-level: orientation commutes with the transformations -/
+
+theorem orientation_rotF (sq : Rat → Rat) (q : M3) (h : q.IsOrth) (f : Fld) :
+    orientation sq (rotF q f) = rotF q (orientation sq f) := by
+  simp only [orientation, rotF, NDA.map]
+  congr 2
+  funext i
+  simp [orient_mulVec sq q h]
+
+theorem orientation_negF (sq : Rat → Rat) (f : Fld) :
+    orientation sq (negF f) = negF (orientation sq f) := by
+  simp only [orientation, negF, NDA.map]
+  congr 2
+  funext i
+  simp [orient_neg sq]
+
+theorem cellV_rotF (q : M3) (f : Fld) (i : List Nat) : cellV (rotF q f) i = q.mulVec (cellV f i) := by
+  simp [cellV, rotF, NDA.map]
+
+theorem cellV_negF (f : Fld) (i : List Nat) : cellV (negF f) i = (cellV f i).neg := by
+  simp [cellV, negF, NDA.map]
+
+theorem cellV_orientation (sq : Rat → Rat) (f : Fld) (i : List Nat) :
+    cellV (orientation sq f) i = orient sq (cellV f i) := by
+  simp [cellV, orientation, NDA.map]
+
+/-! ## triangles -/
+
+theorem triOf_mulVec (q : M3) (h : q.IsRot) (a b c : V3) :
+    triOf (q.mulVec a) (q.mulVec b) (q.mulVec c) = triOf a b c := by
+  unfold triOf
+  rw [dot_mulVec q h.1, dot_mulVec q h.1, dot_mulVec q h.1, cross_mulVec q h, dot_mulVec q h.1]
+
+/-- reversal keeps the three dot products and flips the triple product -/
+theorem triOf_neg (a b c : V3) :
+    triOf a.neg b.neg c.neg = ⟨(triOf a b c).d12, (triOf a b c).d23, (triOf a b c).d31, -(triOf a b c).t⟩ := by
+  simp only [triOf, V3.dot, V3.cross, V3.neg, Tri.mk.injEq]
+  refine ⟨by ring, by ring, by ring, by ring⟩
+
+theorem triOf_same (v : V3) : (triOf v v v).t = 0 := by
+  simp only [triOf, V3.dot, V3.cross]; ring
+
+theorem lsum_map_neg (xs : List Rat) : lsum (xs.map fun x => -x) = -lsum xs := by
+  induction xs with
+  | nil => simp [lsum]
+  | cons x xs ih => simp only [List.map_cons, lsum, ih]; ring
+
+theorem lsum_zero (xs : List Rat) (h : ∀ x ∈ xs, x = 0) : lsum xs = 0 := by
+  induction xs with
+  | nil => rfl
+  | cons x xs ih =>
+    simp only [lsum]
+    rw [h x (by simp), ih (fun y hy => h y (by simp [hy]))]; ring
+
+/-- `|a · b| ≤ 1` for unit vectors: the clip in `neighbouring_cell_angle` only guards rounding -/
+theorem dot_unit_range (a b : V3) (ha : a.normSq = 1) (hb : b.normSq = 1) :
+    -1 ≤ V3.dot a b ∧ V3.dot a b ≤ 1 := by
+  simp only [V3.normSq, V3.dot] at *
+  constructor
+  · nlinarith [sq_nonneg (a.x + b.x), sq_nonneg (a.y + b.y), sq_nonneg (a.z + b.z)]
+  · nlinarith [sq_nonneg (a.x - b.x), sq_nonneg (a.y - b.y), sq_nonneg (a.z - b.z)]
+
+theorem clip1_range (x : Rat) : -1 ≤ clip1 x ∧ clip1 x ≤ 1 := by
+  unfold clip1
+  split
+  · constructor <;> linarith
+  · split
+    · constructor <;> linarith
+    · constructor <;> linarith
+
+theorem clip1_id (x : Rat) (h1 : -1 ≤ x) (h2 : x ≤ 1) : clip1 x = x := by
+  unfold clip1
+  have a : ¬ x < -1 := by linarith
+  have b : ¬ 1 < x := by linarith
+  simp [a, b]
+
 end DFV.C19
